@@ -17,7 +17,7 @@ warnings.simplefilter('ignore')
 # root dict: two slots keyed (K0, 'b'); each slot: 0 absent 1 leaf 2 {} 3 dict with
 # two sub-slots keyed ('a', 'c'); sub-slot: 0 absent 1 leaf 2 {} 3 {'x': leaf}
 # 4 {'x': {}}.  K0 is drawn symbolically from KPOOL (contains the separator).
-KPOOL = ['a', 'b', 'a/c', '/', '']
+KPOOL = ['a', 'b', '0', 'a/c', '/', '']    # '0': a purely numeric string key
 
 
 def _sub(kind, leaf):
@@ -111,7 +111,7 @@ def roundtrip(api, sepmode, r0, r1, s00, s01, s10, s11, k0, keep, cut, v):
   t = build(r0, r1, s00, s01, s10, s11, k0, v)
   orig = build(r0, r1, s00, s01, s10, s11, k0, v)
   sep = '/' if sepmode else None
-  if sep is not None and (KPOOL[k0] != 'a' and KPOOL[k0] != 'b') and r0 != 0:
+  if sep is not None and (KPOOL[k0] not in ('a', 'b', '0')) and r0 != 0:
     raise Reject()  # documented precondition: separator does not occur in keys
   if sep is not None and KPOOL[k0] == '' and r0 != 0:
     raise Reject()
@@ -346,7 +346,7 @@ def obligations(tier):
                 SL.FlatState.__init__)
   if quick:
     shape = dict(r0=I(0, 3), r1=I(0, 3), s00=I(0, 4), s01=I(0, 2), s10=I(0, 2),
-                 s11=I(0, 0), k0=I(0, 2))
+                 s11=I(0, 0), k0=I(0, 3))
     np_ = 4
   else:
     sub = I(0, 4)
